@@ -697,7 +697,8 @@ func (r *resolver) cloneDefs(parent HasDataDefinitions, defs []Definition, when 
 	for i, d := range defs {
 		copy[i] = d.(cloneable).clone(parent).(Definition)
 		if when != nil {
-			copy[i].(HasWhen).setWhen(when)
+			h := copy[i].(HasWhen)
+			h.setWhen(when.inheritedBy(h.When()))
 		}
 	}
 	return copy
@@ -827,6 +828,9 @@ func (r *resolver) expandAugment(y *Augment, parent Meta) error {
 	for _, orig := range y.DataDefinitions() {
 		var err error
 		d := orig.(cloneable).clone(target).(Definition)
+		if h, hasWhen := d.(HasWhen); hasWhen && y.when != nil {
+			h.setWhen(y.when.inheritedBy(h.When()))
+		}
 		if targetIsChoice {
 			if cs, isCase := d.(*ChoiceCase); isCase {
 				if err = targetChoice.addCase(cs); err != nil {
